@@ -5,10 +5,10 @@ import json, os, subprocess
 V = "/verif"
 
 NA = {
- "C04": "decided inside the external lalry LALR construction over grammar-keyed B-tree item sets; no symbolic grammar or construction within CBMC's reach, and comparing against an independent LALR construction would be differential testing, not solver-based checking",
  "C05": "LL(k) decision iterates hash-set FIRST/FOLLOW caches behind Rc<RefCell> over whole grammars (symbolic 2-production probe did not leave CBMC symbolic execution in 30 min); the tuple-level kernel is decided under C32",
  "C06": "Jacobi/Gauss-Seidel fix-points over hash sets, closures and per-k caches over whole grammars; not encodable; the k-concatenation kernel is decided under C32",
  "C11": "string-keyed set/graph fix-points over whole grammars; 2-production symbolic probe did not leave symbolic execution in 30 min; corpus comparison against reference fix-points would be differential testing",
+ "C14": "the real TokenBuffer is out of CBMC's reach: one concrete add + take_skip_tokens takes 460 s, a single add with a symbolic span did not finish in 700 s, LR reductions over real tokens did not finish in 25 min; whole parse runs (tree leaves) did not finish either; byte/line/column arithmetic lives in the external scnr2 crate. The gap-token and skip-classification pieces that could be decided are claimed under C16 (catch-all coverage) and C17 (classification kernel)",
  "C13": "implemented by the external scnr2 matcher on proc-macro generated DFAs; real scanner + stream did not finish a concrete 2-byte input in 15 min under CBMC; parol-side pieces are decided under C15/C16",
  "C18": "string-keyed lookups and template rendering across five generators; nothing a solver can be asked; behaviour-changing numbering errors surface per corpus grammar under C01/C07",
  "C21": "source/JSON rendering for all grammars; behaviour-changing table errors surface under C01/C03/C07/C08 only",
@@ -81,6 +81,30 @@ add("C34", TV,
     "z3 decides for ALL token strings up to N over the shared PAR token vocabulary (41 terminals) that parol.par and parol_ls.par - the sources both parsers are generated from - derive the same strings; a witness is rendered to text and replayed on parol's real grammar parser and on the parser generated from parol_ls.par with the language server's generator options.",
     G_NOTE + "; terminals identified by expanded pattern; scanner-state dependent tokenisation differences outside the claim",
     "bounded CFG language equivalence in SMT (z3) between the two grammar sources; native replay on both parsers", "DESIGN.md §4 C34")
+
+add("C03", TV,
+    "G-LR: per LALR(1) corpus grammar the PARSE_TABLE written by the real generator is unrolled as an LR automaton over symbolic tokens (bit-vectors) and z3 decides for ALL token strings up to N that the table accepts exactly the sentences of the grammar as written (two queries) and that the unrolling bounds suffice (third query); every reduce action is checked to pop states whose accessing symbols spell the production (each reduction is a derivation step, so an accepting run is a rightmost derivation in reverse). Table construction finishing without a crash is observed on the corpus. The runtime's reduce step (call_action) is covered by the C02/C17 kernels.",
+    G_NOTE + "; LRParser::parse_into itself is not symbolically executed; big tables (> 40 states) are validated at N = 3 only",
+    "bounded LR-automaton unrolling in QF_BV (z3) against bounded CFG derivability, on tables read from the generated parser source; native replay on the generated parser", "DESIGN.md §0.2, §4 C03")
+
+STEP_NOTE = K_NOTE + "; pre-states are built directly from private fields (cfg(kani) child modules of the two parser_types.rs); tables are the constant blocks copied from the parser source the freshly built parol generates for the committed corpus grammars; whole parse runs are outside the claim (a^n b^n, N <= 2, did not finish in 45 min / 9 GB), so the claim is per mechanism"
+add("C02", "model_checking",
+    "Bounded model checking (Kani/CBMC) of the LL mechanisms the property rests on, one step at a time from directly built states, on generated tables: push_production (marker + stored right-hand side pushed, one node opened, one production entry) and process_item_stack (semantic action called exactly once per marker - never in recovery mode - with exactly one child per right-hand-side symbol, in grammar order, taken from the top of the tree stack; node closed unless trimmed), for every production of 3 (quick) / 5 (thorough) corpus grammars and all option values; plus ParseTreeStack::split_off / pop_n kernels for all stacks <= 6. Partial: derivation ORDER over a whole parse is not claimed.",
+    STEP_NOTE, "SAT-based bounded model checking of compiled Rust (Kani), one-step harnesses over private parser state", "DESIGN.md §0.5, §4.0")
+add("C04", TV,
+    "Soundness half only: for every corpus grammar for which parol REPORTS resolved LALR(1) conflicts, the generated PARSE_TABLE unrolled as an LR automaton over symbolic tokens (z3, bit-vectors) accepts no token string up to N that is not a sentence of the grammar as written. That every conflicting grammar is reported is not decided (needs an independent LALR(1) construction).",
+    G_NOTE + "; conflicting grammars come from the generated ebnf_lr family; the reporting half of C04 is not claimed",
+    "bounded LR-automaton unrolling in QF_BV (z3) against bounded CFG derivability", "DESIGN.md §0.2")
+add("C17", "model_checking",
+    "Bounded model checking (Kani/CBMC) of the kernels: the skip classification used by the token buffer, the LL loop and the LR tree stack (Token::is_skip_token / is_effectively_skip_token / is_comment_token, LRParseTree::is_skip_token) is the same function of (token type, state_skip) for every u16 type and flag; ParseTreeStack::pop_n (used by LR reductions to take |rhs| significant entries) never counts a skipped entry and keeps it inside the reduced node, for all stacks <= 6 with symbolic flags. Partial: TokenBuffer filtering and whole-run comment delivery are not claimed.",
+    STEP_NOTE + "; pop_n is verified at the instantiation T = Flag (the instantiation at LRParseTree with real tokens did not finish)",
+    "SAT-based bounded model checking of compiled Rust (Kani), kernel harnesses", "DESIGN.md §0.5")
+add("C19", "model_checking",
+    "Kani's default checks (panic, unwrap on None, index out of bounds, arithmetic overflow in the dev profile, slice ranges) with unwinding assertions over the same one-step and kernel harnesses: push_production, process_item_stack, pop_n, split_off and token classification neither panic nor loop beyond the bound from any pre-state of the stated families. Partial: whole inputs, recovery and the LR loop are not claimed.",
+    STEP_NOTE, "SAT-based bounded model checking of compiled Rust (Kani): panic/overflow freedom of the parser kernels", "DESIGN.md §0.5")
+add("C20", "model_checking",
+    "Bounded model checking (Kani/CBMC) of the option-dependent LL steps with all option values symbolic: trimming only removes tree-builder calls (same stack effect, same semantic-action call), the depth counter skips push productions and MaxParsingDepthExceeded is returned exactly when the counter exceeds the limit (never without one), recovery mode suppresses action calls only. Partial: equality of whole-run outcomes and the LR depth limit are not claimed.",
+    STEP_NOTE, "SAT-based bounded model checking of compiled Rust (Kani), one-step harnesses with symbolic option values", "DESIGN.md §0.5")
 
 PENDING = {}
 
